@@ -54,6 +54,9 @@ CHECKS["C15"] = ("exhaustive (method x receiver x argument-tuple) enumeration ag
 CHECKS["C17"] = ("exhaustive signature enumeration with reflect.MakeFunc-manufactured Go functions, a fixture struct and the generic converter; round-trip oracle on recorded Go-side arguments and script-side results",
          "All signatures of arity 0..3 over {string,bool,int,int64,float64} x result kinds, sized integer/float kinds at arity 1..2, struct methods through RegisterReflectClass and utils.ConvertFromIndex[T] for every kind, with boundary argument values (width limits, +-0.0, subnormals, empty / non-UTF-8 / 64 KiB strings): the Go side must receive exactly the passed value, the script exactly the returned one, a non-representable value must raise a catchable error, and no signature may panic the interpreter.",
          "Exact transfer asserted for matching kinds only; mismatched kinds are checked for 'value or catchable error'.")
+CHECKS["C19"] = ("model-based history testing: exhaustive short histories + rapid histories of generic instantiations and typed member writes against a per-instance acceptance model",
+         "Every history of instantiations Box<A> (and Pair<A,B> in the seeded part) with interleaved typed property writes / typed method calls on any live instance; each write must be accepted iff the value belongs to that instance's own type argument and read back unchanged, whatever was instantiated before.",
+         "Per-instance model from the statement; the concurrent-instantiation variant is not built (see DESIGN).")
 NOT_YET = {
 }
 
